@@ -1,3 +1,4 @@
+import BalmProofs.JudgeSpec
 import Balm
 import BalmProofs.AttrTest
 import BalmProofs.Bfs
